@@ -48,6 +48,7 @@ func checkC07(r *Report, p *Program) {
 	freshDecodeTargets(r, p, "R07.20")
 	hookAnswerFrozenAfterGate(r, p, "R07.21")
 	noOpTestOperands(r, p, "R07.22")
+	patchHelpersTable(r, p, "R07.23")
 }
 
 // r07_9: which fields are revisioned. The default (all of spec) applies whenever the
